@@ -164,6 +164,13 @@ def execute(a):
         if mode == "pd":
             m[FTag.PossDupFlag] = "Y"
             rec["tree"] = rec["tree"] + [{"k": "f", "tag": 43, "val": list(b"Y")}]
+        if mode in ("pdN", "pdNc"):
+            # PossDupFlag present but "N": an ordinary transmission, the allocated number goes on the wire
+            # (pdNc: the message also carries a stale MsgSeqNum, e.g. a decoded message sent again)
+            if mode == "pdNc":
+                m[FTag.MsgSeqNum] = 4242
+            m[FTag.PossDupFlag] = "N"
+            rec["tree"] = rec["tree"] + [{"k": "f", "tag": 43, "val": list(b"N")}]
         txt = codec.encode(m, s, raw_seq_num=raw_flag)
         b = txt.encode("latin-1")
         rec["bytes"] = list(b)
@@ -205,7 +212,7 @@ def run(ctx):
         json.dump([{"g": g, "members": ms} for g, ms in sorted(table.items())], fh)
     jobs = []
     for i, tree in enumerate(cases):
-        mode = ["alloc", "alloc", "raw", "pd", "seqreset"][i % 5] if i % 3 == 0 else "alloc"
+        mode = ["alloc", "pdN", "raw", "pd", "seqreset", "pdNc", "alloc"][i % 7] if i % 3 == 0 else "alloc"
         mtype = "4" if mode == "seqreset" else rng.choice(["D", "8", "XYZ", "AE", "j"])
         nout = rng.choice([1, 7, 1000000, 2 ** 31 - 5])
         jobs.append(("t%d" % i, tree, mode, mtype, nout))
